@@ -29,25 +29,15 @@ CORPUS = os.path.join(os.path.dirname(HERE), 'corpus', 'C04')
 # Genuine defects of the unchanged tree found by this check (see final report / known_findings.json).
 # The key names the call site and the exact input class; any OTHER violation is still reported.
 PENDING_FINDINGS = {
-    'maintransformer._is_constructor:ancestor-walk-accepts-non-ancestor-return-when-chain-reaches-GObject.Object':
-        'a *_new function of class T returning an unrelated class R is made a constructor of T whenever '
-        "T's parent chain reaches GObject.Object (the ancestor walk leaves its loop at the root without "
-        'rejecting): gtk_button_new_label() returning GtkLabel* becomes <constructor> of Gtk.Button',
     'maintransformer._setup_method/_get_constructor_name:str.find(subsymbol)-leftmost-occurrence':
         'the GIR name of a method/constructor is cut at symbol.find(subsymbol); when the text of the '
         'stripped symbol also occurs earlier in the symbol (foo_foo_foo on Foo.Foo) too little is cut: '
         'method name="foo_foo" instead of "foo"',
-    'maintransformer._get_constructor_name:annotated-constructor-uscored_prefix-in-symbol':
-        "an annotated (constructor) whose symbol merely CONTAINS the return type's underscored name "
-        '(foo_bar_make_widget returning FooBarWidget*) gets a garbage GIR name ("dget"): the cut position '
-        'assumes the type prefix leads the stripped symbol',
-    'girwriter._write_callback:c:type-omitted-when-name-equals-ctype':
-        'a top-level callback whose GIR name equals its C name (accept-unprefixed mode) is written without '
-        'c:type, so the GIR no longer records the original C name in c:type',
-    'maintransformer._is_constructor:AttributeError-parent_type-when-origin-is-boxed-record-and-return-is-class':
-        'the scanner dies with AttributeError ("Record object has no attribute parent_type") when a *_new '
-        'function of a boxed/foreign record or union returns a class: the ancestor walk starts at the record',
 }
+# Repaired in /repo (their corpus cases are regressions that must pass unsuppressed):
+#   5ba500c ancestor walk of _is_constructor stopped at GObject.Object; 11d283b AttributeError when a *_new
+#   function of a boxed record returns a class; f0089a0 top-level callback written without c:type;
+#   54063d6 annotated constructor named by a cut that assumed a leading type prefix.
 
 # ---------------------------------------------------------------------------------------------
 # vocabulary
@@ -406,6 +396,19 @@ def type_prefix_strips(sub, type_el):
     return out
 
 
+def type_prefix_lengths(sub, type_el):
+    """lengths of the spellings of the owning type's symbol prefix that lead `sub`"""
+    out = set()
+    sp = type_el.get(q('c:symbol-prefix'))
+    if sp and sub.startswith(sp):
+        out.add(len(sp))
+    want = spec_squash(type_el.get('name'))
+    for k in range(1, len(sub) + 1):
+        if spec_squash(sub[:k]) == want and not sub[:k].endswith('_'):
+            out.add(k)
+    return out
+
+
 def carries_type_prefix(sub, type_el):
     sp = type_el.get(q('c:symbol-prefix'))
     if sp and sub.startswith(sp):
@@ -421,11 +424,7 @@ def oracle(ctx, case, outcome, res, cnt, type_names):
     if outcome == 'fatal':
         return 'outside:scanner-refused'          # fail-loud namespace conflict: no GIR to judge
     if outcome == 'crash':
-        key = 'crash'
-        if "has no attribute 'parent_type'" in str(res):
-            key = ('maintransformer._is_constructor:AttributeError-parent_type-when-origin-is-boxed-record-'
-                   'and-return-is-class')
-        fail(ctx, case, key, None, 'the scanner crashed (%s) on declarations the property covers' % res)
+        fail(ctx, case, 'crash', None, 'the scanner crashed (%s) on declarations the property covers' % res)
         return 'violation'
     nsel, els = gir_elements(res['gir'])
     symp = (nsel.get(q('c:symbol-prefixes')) or '').split(',')
@@ -474,11 +473,6 @@ def oracle(ctx, case, outcome, res, cnt, type_names):
         nonlocal verdict
         verdict = 'violation'
         fail(ctx, case, key, None, what)
-
-    type_by_ctype = {}
-    for where, tag, el, parent in els:
-        if where == 'top' and tag in ('record', 'union', 'class', 'interface'):
-            type_by_ctype[el.get(q('c:type'))] = el
 
     def ancestors(ctype):
         """C names of the type and its ancestors, from the dump's parent lists and the includes"""
@@ -563,14 +557,12 @@ def oracle(ctx, case, outcome, res, cnt, type_names):
                 ok_names |= set(strips)            # an annotated function may keep its namespace-stripped name
             if got not in ok_names:
                 key = 'owned-name'
-                sub_cut = [s for s in strips if name.find(s) != len(name) - len(s)]
+                # the remaining known defect, exactly: the stripped symbol st also occurs EARLIER in the C symbol
+                # and the name is the C symbol cut at (that leftmost position + type prefix + 1)
+                sub_cut = [st for st in strips if name.find(st) != len(name) - len(st) and any(
+                    got == name[name.find(st) + L + 1:] for L in type_prefix_lengths(st, parent))]
                 if sub_cut:
                     key = 'maintransformer._setup_method/_get_constructor_name:str.find(subsymbol)-leftmost-occurrence'
-                elif tag == 'constructor' and 'constructor' in ann.get(name, []) and any(
-                        st != got and st.endswith(got) and not type_prefix_strips(st, parent) for st in strips):
-                    # the name is a truncated tail of a namespace-stripped symbol that does NOT lead with the
-                    # type prefix (with several symbol prefixes another stripping may well lead with it)
-                    key = 'maintransformer._get_constructor_name:annotated-constructor-uscored_prefix-in-symbol'
                 bad(key, '%s %s of %s is named %r; stripping namespace and type prefix gives %r'
                     % (tag, name, parent.get('name'), got, sorted(ok_names)))
             if tag == 'method':
@@ -595,13 +587,6 @@ def oracle(ctx, case, outcome, res, cnt, type_names):
                 anc = ancestors(parent.get(q('c:type')))
                 if rb not in anc:
                     key = 'ctor-return'
-                    inc_classes = [ct for n in include_order(case['includes'])
-                                   for kind, nm, ct, gt, par in INCLUDES[n][4] if kind == 'class']
-                    ret_is_class = (rb in type_by_ctype and type_by_ctype[rb].tag.endswith('}class')) \
-                        or rb in inc_classes
-                    if parent.tag.endswith('}class') and ret_is_class and 'GObject' in anc:
-                        key = ('maintransformer._is_constructor:ancestor-walk-accepts-non-ancestor-return-'
-                               'when-chain-reaches-GObject.Object')
                     bad(key, 'constructor %s of %s returns %s which is neither that type nor an ancestor (%s)'
                         % (name, parent.get('name'), rb, anc))
         for where2, tag2, el2, parent2 in copies:
@@ -661,8 +646,7 @@ def oracle(ctx, case, outcome, res, cnt, type_names):
                 continue
         cnt.hit('decl:type:public')
         if name in no_ctype:
-            bad('girwriter._write_callback:c:type-omitted-when-name-equals-ctype',
-                'callback %s is written without c:type' % name)
+            bad('callback-without-ctype', 'callback %s is written without c:type' % name)
         if len(found) != 1 or found[0][2].get('name') not in strips:
             bad('type', 'type %s: described %d times, named %r, expected one of %r'
                 % (name, len(found), [f[2].get('name') for f in found], strips))
@@ -1461,8 +1445,11 @@ def run(ctx):
         'type lookup of parameters is modelled for typedef names (pointer depth 0-2); container types (GList...) are not generated',
         'cyclic parent chains do not occur (GType); the model walks with fuel',
         'aliases whose stripped name is a fundamental type name or ends in _autoptr, types whose name equals a prefix, '
-        'mixed-style callback names (FooBar_cb), tag-only structs with an underscore tag and annotated constructors '
-        'without type prefix are outside the oracle (counted, not judged)',
+        'mixed-style callback names (FooBar_cb), tag-only structs with an underscore tag and the prefix rule for '
+        'annotated constructors are outside the oracle (counted, not judged); the NAME of an annotated constructor '
+        'is judged (type-prefix-stripped or namespace-stripped)',
+        'a class whose first resolvable parent GType is a boxed type (GType forbids it) is not generated: the '
+        'ancestor walk of _is_constructor raises AttributeError there (Walk.noParentAttr in the model)',
     ])
 
 
